@@ -95,6 +95,9 @@ def run_check(args):
     # (a contract none of whose cases could be followed -- every path ended in Unsupported / a stand-in gap -- is UNDECIDED,
     #  already reported as such; vacuous means: nothing was undecided and still nothing ran)
     und_contracts = {u["contract"] for u in undecided}
+    # ... and a contract whose every path stopped at an obligation that did NOT go through (a refuted or unknown
+    # call-pre ends the path there) has its verdict from that obligation, it is not vacuous either
+    und_contracts |= {k.split("::")[0] for k, o in obl.items() if o.get("failed") or o.get("unknown")}
     vacuous = [c for c, d in reach.items() if d["outcomes"] == 0 and c not in und_contracts and not any(rr.get("crash") for rr in results if rr["contract"] == c)]
 
     # --- failures: replay ---------------------------------------------------------------------
